@@ -400,6 +400,44 @@ func ruleInferredOrderDedup(c *Ctx, rule string) {
 		c.R.Check(together, rule, fmt.Sprintf("%s:append#%d:where-the-property-is-entered", core.FuncName(st.Parent()), nApp), c.pos(st), "a name is appended to the order exactly where it is entered into the properties",
 			"a name is appended to PropertyOrder on paths on which it is not entered into Properties (for instance for a name that is a property already): the name gets a second, later position, and the de-duplication keeps that one, so the inferred order no longer follows the fields")
 	})
+	// a property entered outside the name-conflict resolution (the properties of an overriding schema) never replaces
+	// one that is there already: the entry is guarded by a failed lookup of the same name in the same map
+	nOv := 0
+	for _, fi := range c.familyInstrs(ft) {
+		mu, ok := fi.I.(*ssa.MapUpdate)
+		if !ok || !c.mentionsField(mu.Map, "Schema.Properties", 4) {
+			continue
+		}
+		key := upValue(mu.Key, fi.Path)
+		fromName := false
+		for _, src := range append(traceSources(key), key) {
+			if mentionsStructFieldNamed(src, "name", 3) {
+				fromName = true
+			}
+		}
+		if fromName {
+			continue // decided by the name-conflict resolution
+		}
+		nOv++
+		own := false
+		for _, g := range famGuards(fi) {
+			var lk *ssa.Lookup
+			switch x := g.Cond.(type) {
+			case *ssa.Extract:
+				if l, ok := x.Tuple.(*ssa.Lookup); ok && x.Index == 1 {
+					lk = l
+				}
+			}
+			if lk == nil || g.Pol {
+				continue
+			}
+			if c.mentionsField(lk.X, "Schema.Properties", 4) && (sharesSource(lk.X, mu.Map) || sameFieldLoad(lk.X, mu.Map)) && (lk.Index == key || sharesSource(lk.Index, key) || lk.Index == mu.Key) {
+				own = true
+			}
+		}
+		c.R.Check(own, rule, fmt.Sprintf("%s:override-entry#%d:only-if-absent", core.FuncName(mu.Parent()), nOv), c.pos(mu), "a property taken from an overriding schema is entered only if the struct has no property of that name yet",
+			"a property taken from an overriding schema is entered without a failed lookup of its name in the properties collected so far (the test looks somewhere else, e.g. in the table of field owners, which earlier overrides do not fill): a second overridden embedded struct replaces the property of the first, and the name moves to a later position in the inferred order")
+	}
 	// the store of a de-duplicated slice into Schema.PropertyOrder: value does not come from append(load PropertyOrder, ...)
 	n := 0
 	c.eachFam(ft, func(i ssa.Instruction) {
